@@ -308,6 +308,8 @@ type vC18State struct {
 	Rlog     []vC18Entry `json:"rlog"`
 	First    int64       `json:"first"`
 	Snap     int64       `json:"snap"`
+	Trailing int64       `json:"trailing"` // TrailingLogs the server configured its Raft node with
+	DispFn   string      `json:"dispfn"`   // the dispatcher function as learned at the publish gate
 	Pub      []vC18Ev    `json:"pub"`
 	Lp       int64       `json:"lp"`
 	Up       bool        `json:"up"`
@@ -450,6 +452,10 @@ type vC18Run struct {
 	ownNS     string // namespace of the cluster under test ("" = default)
 	natsURL   string
 	foreignN  int
+	// configuration dimension: clustering.raft.snapshot.threshold of the cluster under
+	// test (0 = not set)
+	snapThreshold int
+	trailing      int64
 }
 
 type vC18Inconclusive struct{ msg string }
@@ -562,6 +568,9 @@ func (r *vC18Run) config(id string, cluster bool) *Config {
 	cfg.Groups.ConsumerTimeout = time.Hour
 	cfg.Groups.CoordinatorTimeout = time.Hour
 	cfg.Clustering.RaftSnapshots = 2
+	if r.snapThreshold > 0 {
+		cfg.Clustering.RaftSnapshotThreshold = uint64(r.snapThreshold)
+	}
 	if r.natsURL != "" {
 		cfg.EmbeddedNATS = false
 		cfg.NATS.Servers = []string{r.natsURL}
@@ -750,6 +759,7 @@ func (r *vC18Run) readRaftLog(n *vC18Node) {
 		return
 	}
 	r.first = int64(firstIdx)
+	r.trailing = int64(rn.ReloadableConfig().TrailingLogs)
 	for i := uint64(len(r.rlog)) + 1; i <= commit; i++ {
 		l := new(raft.Log)
 		if err := rn.store.GetLog(i, l); err != nil {
@@ -828,6 +838,10 @@ func (r *vC18Run) state(focus *vC18Node) vC18State {
 	st.Pub = append(st.Pub, r.pub...)
 	st.First = r.first
 	st.Snap = r.snap
+	st.Trailing = r.trailing
+	if v := vC18DispFn.Load(); v != nil {
+		st.DispFn = v.(string)
+	}
 	return st
 }
 
@@ -1089,13 +1103,11 @@ func (r *vC18Run) step(step map[string]interface{}) (ev vC18Event) {
 	case "Snapshot":
 		n := r.node(step)
 		focus = n
-		keep := uint64(vIntDef(step, "keep", 0))
+		// the log store is compacted as the SERVER configured its Raft node (TrailingLogs
+		// is whatever createRaftNode made of the configuration; recorded as `keep`)
 		rn := n.srv.getRaft()
-		rc := rn.ReloadableConfig()
-		rc.TrailingLogs = keep
-		if err := rn.ReloadConfig(rc); err != nil {
-			ev.Obs.Err = vC18ErrClass(err)
-		} else if err := rn.Snapshot().Error(); err != nil {
+		ev.Args["keep"] = int64(rn.ReloadableConfig().TrailingLogs)
+		if err := rn.Snapshot().Error(); err != nil {
 			ev.Obs.Err = vC18ErrClass(err)
 		} else {
 			r.readRaftLog(n)
@@ -1217,6 +1229,9 @@ func TestVerifC18(t *testing.T) {
 			sort.Strings(nodes)
 		}
 		r := &vC18Run{t: t, bid: b.ID, nodes: map[string]*vC18Node{}, order: nodes, first: 1}
+		if v, ok := b.Cfg["snapthreshold"]; ok {
+			r.snapThreshold = int(v.(float64))
+		}
 		vC18GatesMu.Lock()
 		for _, id := range nodes {
 			g := &vC18Gate{}
